@@ -172,7 +172,7 @@ def worker_init() -> None:
     # enumerate perturbation targets once per base (deterministic walk)
     STATE["targets"] = {}
     STATE["base_errors"] = {}
-    for name in list(STATE["bases"]) + ["somersault_renamed", "zoo0", "zoo1", "zoo2", "zoo3"]:
+    for name in list(STATE["bases"]) + ["somersault_renamed", "zoo0", "zoo1", "zoo2", "zoo3", "zoo9"]:
         try:
             with W.quiet():
                 db = load_base(name)
@@ -253,8 +253,53 @@ def load_base(name: str):
     raise ValueError(name)
 
 
+def build_split_db():
+    """A database split over two documents with inheritance ACROSS them: a base variant in container
+    zsplit_parents, an ECU variant in container zsplit_children whose PARENT-REF points into the other
+    document (the child must load whatever the order of the two files)."""
+    from odxtools.database import Database
+    from odxtools.diaglayercontainer import DiagLayerContainer
+    from odxtools.diaglayers.basevariant import BaseVariant
+    from odxtools.diaglayers.ecuvariant import EcuVariant
+    from odxtools.nameditemlist import NamedItemList
+    from odxtools.odxlink import DocType, OdxDocFragment, OdxLinkId, OdxLinkRef
+    from odxtools.parentref import ParentRef
+
+    from ..zoo.mk import LayerBuilder, mk
+    db = Database()
+    pb = LayerBuilder("zsplit_base", "base", container="zsplit_parents")
+    u8 = pb.dop("u8", pb.slt(bits=8))
+    u16 = pb.dop("u16", pb.slt(bits=16))
+    rq = pb.request("rq_inherited", [pb.coded_const("sid", 0x22), pb.value("did", u16)])
+    rs = pb.response("rs_inherited", [pb.coded_const("sid", 0x62), pb.matching_request("did", 1, 2), pb.value("val", u8)])
+    pb.service("inherited_service", rq, [rs], [])
+    rq2 = pb.request("rq_overridden", [pb.coded_const("sid", 0x23), pb.value("x", u8)])
+    pb.service("overridden_service", rq2, [], [])
+    parent_raw = pb.raw()
+    parent = BaseVariant(diag_layer_raw=parent_raw)
+    cb = LayerBuilder("zsplit_ecu", "ecu", container="zsplit_children")
+    cu8 = cb.dop("cu8", cb.slt(bits=8))
+    crq = cb.request("rq_own", [cb.coded_const("sid", 0x31), cb.value("y", cu8)])
+    cb.service("own_service", crq, [], [])
+    crq2 = cb.request("rq_overridden", [cb.coded_const("sid", 0x23), cb.value("x", cu8), cb.value("z", cu8)])
+    cb.service("overridden_service", crq2, [], [])
+    pref = ParentRef(layer_ref=OdxLinkRef.from_id(parent_raw.odx_id), not_inherited_diag_comms=[],
+                     not_inherited_variables=[], not_inherited_dops=[], not_inherited_tables=[],
+                     not_inherited_global_neg_responses=[])
+    child = EcuVariant(diag_layer_raw=cb.raw(parent_refs=[pref]))
+    for cname, attr, layer in (("zsplit_children", "ecu_variants", child), ("zsplit_parents", "base_variants", parent)):
+        frag = OdxDocFragment(cname, DocType.CONTAINER)
+        dlc = mk(DiagLayerContainer, odx_id=OdxLinkId(f"{cname}.id", [frag]), short_name=cname,
+                 **{attr: NamedItemList([layer])})
+        db.diag_layer_containers.append(dlc)
+    db.refresh()
+    return db
+
+
 def build_zoo_db(seed: int):
     """A zoo database: 1-2 containers with an ECU variant each built from the zoo shapes."""
+    if seed == 9:
+        return build_split_db()
     from odxtools.database import Database
     from odxtools.diaglayercontainer import DiagLayerContainer
     from odxtools.diaglayers.ecuvariant import EcuVariant
@@ -589,8 +634,8 @@ def gen(rs: int, index: int, tier: str) -> Dict[str, Any]:
                 alts.append(t["path"])
         alts = alts[:8]
     else:
-        base = weighted(r, ["somersault", "somersault_modified", "somersault_renamed", "zoo0", "zoo1", "zoo2", "zoo3"],
-                        [5, 2, 2, 2, 2, 2, 2])
+        base = weighted(r, ["somersault", "somersault_modified", "somersault_renamed", "zoo0", "zoo1", "zoo2", "zoo3", "zoo9"],
+                        [5, 2, 2, 2, 2, 2, 2, 3])
         vclass = weighted(r, ["plain", "meta", "empty", "none"], [6, 3, 1, 1])
         tgts = STATE["targets"][base]
         tgt = r.choice(tgts) if vclass != "none" and tgts else None
